@@ -762,3 +762,9 @@ func exprText(e ast.Expr) string {
 	}
 	return fmt.Sprintf("%T", e)
 }
+
+// thin: the contract promises callers nothing — no requires, ensures or assumes, and the inferred frame; it only pins
+// obligations at call sites inside the function itself.
+func (c *FuncContract) thin() bool {
+	return !c.Trusted && !c.Pure && !c.NoInline && c.ModAuto && len(c.Requires) == 0 && len(c.Ensures) == 0 && len(c.Assumes) == 0 && len(c.Modifies) == 0
+}
